@@ -26,8 +26,9 @@ def jobs(tier):
                    'params': {'nlines': 2, 'menu_name': 'small', 'fixed': [f], 'pre_out_len': 2, 'pre_temp_len': 2}})
     # the only-if-needed option is an option of build: from any pre-state (in particular: the fresh output followed by stale bytes,
     # the fresh output cut short) it must leave what a build from a clean tree leaves
-    for sc in (['text'], ['write'], ['include f'], ['run'], ['text', 'text']):
-        for pl in ((2, 3, 4, 5) if quick else (1, 2, 3, 4, 5, 6, 7)):
+    for sc in (['text'], ['write'], ['include f'], ['run'], ['text', 'text'], ['include f', 'empty'], ['run', 'empty'], ['temp'], ['empty'],
+               ['text', 'temp']):
+        for pl in ((0, 2, 3, 4, 5) if quick else (0, 1, 2, 3, 4, 5, 6, 7)):
             js.append({'name': '--needed pre_out=%d %s' % (pl, '/'.join(sc)), 'harness': (H, 'h_hermetic'),
                        'params': {'nlines': len(sc), 'menu_name': 'small', 'fixed': sc, 'pre_out_len': pl, 'pre_temp_len': None,
                                   'mode_a': 'InMemoryBuild', 'mode_b': 'Build', 'inc_len': 1}})
